@@ -310,3 +310,29 @@ def case_script(all_lines, cid):
         if on:
             out.append(l)
     return out
+
+
+# ---------------------------------------------------------------------------------- slow or not returning?
+_HANG_BUDGET = {"left": 3}
+
+
+def still_hangs(drv, script, cmd, workdir, long_timeout=600):
+    """A per-case time limit cannot tell a slow call from one that does not return.  Before a check reports `no return`, the case is run
+    again alone, up to and including the call `cmd`, under a limit `long_timeout` (CPU seconds) - 20 to 60 times the ordinary one.
+    Returns True when the same call still does not return (reported as a violation), False when it completed (slow: skipped and counted by
+    the caller), None when the budget of such re-runs of this process (3) is used up (treated as slow by the callers: never a violation
+    without the confirmation)."""
+    if _HANG_BUDGET["left"] <= 0:
+        return None
+    _HANG_BUDGET["left"] -= 1
+    lines = []
+    for l in script:
+        lines.append(l)
+        if l == cmd:
+            break
+    rc, cases, so, se = run_scripts(drv, lines, workdir, "hangconfirm", timeout=long_timeout * 12, case_timeout=long_timeout)
+    for steps in cases.values():
+        for st in steps:
+            if st.cmd == cmd and st.exc is not None and st.exc[0] == "hang":
+                return True
+    return False
